@@ -125,6 +125,15 @@ class C20:
                "writes": [{"w": "file", "rel": [bl("bin"), bl("tool")], "data": bl("t")}, {"w": "execd", "progs": [[bl("gone"), None]]}]}
         h = C01P.to_harness({"id": 0, "names": NAMES, "ops": [req, {"op": "restore"}, req]})
         cases.append({"kind": 1, "names": h["names"], "ops": h["ops"], "probes": PROBES, "cmp_failed": True})
+        # exec.d programs registered again from the layer's own exec.d, each under the other's name: the sources are gone
+        # when they are read (the directory is wiped first) -- whatever happens, it happens the same way in every process
+        first = keep_req([("a", "AAAA"), ("b", "BBBB")])
+        swap = {"op": "req", "n": "a", "q": {"kind": "cached", "launch": True, "build": False, "m": "G",
+                                             "inv": {"d": "delete", "cause": 1}, "res": {"d": "keep", "cause": 2}},
+                "writes": [{"w": "execd", "progs": [[bl("a"), {"layer_rel": [bl("exec.d"), bl("b")]}], [bl("b"), {"layer_rel": [bl("exec.d"), bl("a")]}]]}]}
+        h = C01P.to_harness({"id": 0, "names": NAMES, "ops": [first, {"op": "restore"}, swap]})
+        for _ in range(6):
+            cases.append({"kind": 1, "names": h["names"], "ops": h["ops"], "probes": PROBES, "cmp_failed": True})
         subsets = [["cdx", "spdx", "syft"], ["syft"], []]
         for la, st, bs, ls in itertools.product([True, False], [True, False], subsets, subsets):
             cases.append({"kind": 5, "cfg": base_cfg(exe="build", nargs=3, store="ok", pre=True,
